@@ -9,3 +9,4 @@ if [ ! -d .deps/mpmath ]; then
 fi
 export PYTHONPATH="$PWD:${VERIF_REPO:-/repo}:$PWD/.deps"
 /venv/bin/python -c "import mpmath, jax, probdiffeq; print('setup ok: mpmath', mpmath.__version__, 'jax', jax.__version__)"
+./check selftest C06 C19 --n=3
